@@ -172,6 +172,23 @@ def run(tier, seed):
         from . import fnlib, sigmod
         fnlib.set_env(m, scratch, {"sig": (MemoryStorageBackend(), None)})
         mg = MGen(rng, m, sigmod)
+        # function-valued arguments whose partial arguments are equal for Python but different memento arguments
+        # (1 / 1.0 / True): each round-trips to itself, in whatever order the process meets them
+        twins = [1, 1.0, True, 0, 0.0, False]
+        rng.shuffle(twins)
+        for tv in twins * 2:
+            for build in (lambda v: sigmod.s2.partial(v), lambda v: sigmod.s3.partial(b=v)):
+                fa = build(tv)
+                try:
+                    doc = MementoCodec.encode_arg(fa)
+                    back = MementoCodec.decode_arg(json.loads(json.dumps(doc)))
+                    ref = back.fn_reference()
+                    got = list(ref.partial_args or ()) + list((ref.partial_kwargs or {}).values())
+                    if len(got) != 1 or type(got[0]) is not type(tv) or got[0] != tv or MementoCodec.encode_arg(back) != doc:
+                        rep.violation("C11:roundtrip-differs:function-partial-argument", "a function argument with the partial argument %r (%s) reads back with %r" % (tv, type(tv).__name__, got),
+                                      {"partial_argument": repr(tv), "document": doc, "decoded_partial_arguments": repr(got)})
+                except Exception as e:
+                    rep.violation("C11:roundtrip-raised", "%s: %s" % (type(e).__name__, str(e)[:150]), {"partial_argument": repr(tv)})
         terms, texts, metas = [], [], []
         nonjson = 0
         for i in range(n):
